@@ -9,6 +9,11 @@ def hash (s : String) : String := Verif.Sha3.sha3Hex s
 /-- `util.MHash(a, b) = Hash(a + b)` on hex strings -/
 def mhash (a b : String) : String := hash (a ++ b)
 
+/-- FNV-1a 64 of a long canonical text, 16 hex digits (fingerprint of tree arrays and path lists; see `c19Digest`) -/
+def digest (s : String) : String :=
+  let h := s.toUTF8.foldl (fun (h : UInt64) b => (h ^^^ b.toUInt64) * 0x100000001b3) 0xcbf29ce484222325
+  String.ofList ((List.range 16).map (fun i => hexChar ((h >>> (UInt64.ofNat (60 - 4 * i))).toNat % 16)))
+
 structure St where
   leaves : Array String := #[]
   tree : Option (Tree String) := none
@@ -19,7 +24,7 @@ def pathsDigest (t : Tree String) (n : Nat) : String :=
   let lines := (List.range n).map (fun i =>
     let p := pathByIndex "" t i
     toString p.leafIndex ++ ":" ++ nodesStr p.nodes ++ "\n")
-  hash (String.join lines)
+  digest (String.join lines)
 
 def bstr (b : Bool) : String := if b then "true" else "false"
 
@@ -38,7 +43,7 @@ def step (s : St) (w : List String) : St × String :=
     if s.leaves.size = 0 then (s, "bad-op") else
     let t := computeTree mhash "" s.leaves.toList
     ({ s with tree := some t },
-      "ok " ++ toString t.tree.size ++ " " ++ getRoot "" t ++ " " ++ hash (",".intercalate t.tree.toList))
+      "ok " ++ toString t.tree.size ++ " " ++ getRoot "" t ++ " " ++ digest (",".intercalate t.tree.toList))
   | some t, ["tree"] => (s, "ok " ++ ",".intercalate t.tree.toList)
   | some t, ["pathidx", i] =>
     let i := i.toNat!
